@@ -303,7 +303,72 @@ pub fn run(ctx: &Ctx, st: &mut Stats) -> Vec<Violation> {
     if out.is_empty() {
         out.extend(size_axis(ctx, st));
     }
+    if out.is_empty() {
+        out.extend(yuv_size_axis(ctx, st));
+    }
     out
+}
+
+/// The YUV<->RGB error contract must not depend on the frame size or layout: for every (matrix, primaries) pair the
+/// outcome (Ok, or which error) on real-size frames - unpadded with stride == width, padded, u8 and u16 storage -
+/// equals the outcome on a 4x4 frame (which the complete enumeration above judges against the contract).
+fn yuv_size_axis(ctx: &Ctx, st: &mut Stats) -> Vec<Violation> {
+    let sizes: Vec<(usize, usize, usize)> = if ctx.quick() { vec![(256, 256, 0), (1024, 72, 0), (321, 207, 9)] } else { vec![(256, 256, 0), (1024, 72, 0), (321, 207, 9), (1920, 1080, 0), (3840, 2160, 0)] };
+    let mut jobs = Vec::new();
+    for m in ALL_MC {
+        for p in ALL_CP {
+            if m != MC::Unspecified && p != CP::Unspecified {
+                for (si, _) in sizes.iter().enumerate() {
+                    // the two largest sizes: a rotating third of the configurations
+                    if si >= 3 && (jobs.len() + si) % 3 != 0 {
+                        continue;
+                    }
+                    jobs.push((m, p, si));
+                }
+            }
+        }
+    }
+    fn outcome<T: yuvxyb::Pixel>(c: yuvxyb::YuvConfig, w: usize, h: usize, pad: usize) -> (Result<(), CE>, Result<(), CE>)
+    where
+        Yuv<T>: TryFrom<(Rgb, yuvxyb::YuvConfig), Error = CE>,
+    {
+        let max = (1u32 << c.bit_depth) - 1;
+        let codes: Vec<[u16; 3]> = (0..w * h).map(|i| [((i * 7 + 1) as u32 % (max + 1)) as u16, ((i * 13 + 5) as u32 % (max + 1)) as u16, ((i * 29 + 3) as u32 % (max + 1)) as u16]).collect();
+        let dec = Yuv::<T>::new(crate::api::frame444_pads::<T>(&codes, w, h, [(pad, 0), (0, 0), (pad, pad.min(1))]), c).map_err(|_| CE::UnsupportedMatrixCoefficients).and_then(|y| Rgb::try_from(&y).map(|_| ()));
+        let enc = Rgb::new(vec![[0.25f32, 0.5, 0.75]; w * h], w, h, c.transfer_characteristics, c.color_primaries).map_err(|_| CE::UnsupportedMatrixCoefficients).and_then(|r| Yuv::<T>::try_from((r, c)).map(|_| ()));
+        (dec, enc)
+    }
+    par_sweep(ctx, st, jobs.len() as u64, |lo, hi, st| {
+        for j in lo..hi {
+            let (m, p, si) = jobs[j as usize];
+            let (w, h, pad) = sizes[si];
+            for (depth, u8s) in [(8u8, true), (10, false)] {
+                let c = cfg(m, TC::BT1886, p, depth, j % 2 == 0, (0, 0));
+                let r = catch(|| if u8s { (outcome::<u8>(c, 4, 4, 0), outcome::<u8>(c, w, h, pad)) } else { (outcome::<u16>(c, 4, 4, 0), outcome::<u16>(c, w, h, pad)) });
+                let mk = |msg: String| Violation {
+                    signature: "C14:yuv-size-axis".into(),
+                    message: format!("{msg} [{w}x{h} frame, plane padding {pad}, {} storage, matrix={:?} primaries={:?}]", if u8s { "u8" } else { "u16" }, m, p),
+                    case: json!({"prop":"C14","part":"size","w":w,"h":h,"triple":names(m, p, TC::BT1886)}),
+                };
+                match r {
+                    Err(pn) => return Some(mk(format!("panic: {pn}"))),
+                    Ok((small, big)) => {
+                        if small != big {
+                            return Some(mk(format!("YUV->RGB / RGB->YUV give {:?} on a 4x4 frame but {:?} on the real-size frame: the error contract depends on the frame size or layout", small, big)));
+                        }
+                        if big.0.is_ok() != big.1.is_ok() {
+                            return Some(mk(format!("YUV->RGB gives {:?} but RGB->YUV gives {:?}", big.0, big.1)));
+                        }
+                    }
+                }
+                st.comparisons += 2;
+            }
+            st.evaluations += 1;
+            st.nontrivial_by_construction += 1;
+            st.class("yuv_size_axis_cases", 1);
+        }
+        None
+    })
 }
 
 /// Two-step histories over the metadata: for every ordered pair of (matrix, primaries) configurations, the
@@ -421,6 +486,7 @@ pub fn replay(v: &Value) -> Result<(), String> {
         let mut st = Stats::new();
         let mut v2 = pairwise_interference(&ctx, &mut st);
         v2.extend(size_axis(&ctx, &mut st));
+        v2.extend(yuv_size_axis(&ctx, &mut st));
         return match v2.into_iter().next() {
             Some(x) => Err(x.message),
             None => Ok(()),
@@ -435,4 +501,4 @@ pub fn replay(v: &Value) -> Result<(), String> {
     check_triple(c.matrix_coefficients, c.color_primaries, c.transfer_characteristics, Shape { ss, full, img }, &mut Stats::new()).map_err(|v| v.message)
 }
 
-pub const RULE: &str = "complete enumeration (both tiers): every fully specified (MatrixCoefficients, ColorPrimaries, TransferCharacteristic) triple (14 x 13 x 18 = 3276) x 12 conversions on a 4x4 image, repeated for 14 shapes: subsampling 4:4:4, 4:2:0, 4:2:2, 4:1:0 (2,2), 4:4:0 x limited/full x image content {colourful in-gamut, achromatic (grey pixels / neutral chroma), out-of-gamut floats / extreme codes} (YUV<->RGB in u8 and u16 storage, gamma<->linear, YUV<->linear, YUV<->XYB, RGB<->XYB). Oracle: no panic; the 7 x 11 x 14 supported triples succeed everywhere; an error is an Unsupported* variant naming a field the conversion uses and that is responsible (counterfactual: replacing only that field by BT.709/BT.1886 removes that error); forward Ok iff reverse Ok; YUV<->RGB and gamma<->linear pairs fail with the same error; with a standard matrix YUV<->RGB output is bit-identical for all transfer/primaries values. The triples of each shape are visited in one of four orders (transfer, primaries or matrix varying fastest, shuffled). In addition: all 33,124 ordered pairs of (matrix, primaries) configurations as two-step histories (the second conversion right after the first vs in isolation on a fresh thread), and the gamma<->linear / RGB<->XYB contract on real-size images (up to 2049x2049; thorough 3841x2161). A case = one (triple, shape) (all 12 conversions and their counterfactuals); non-trivial = triple outside the all-supported set; distinct by construction";
+pub const RULE: &str = "complete enumeration (both tiers): every fully specified (MatrixCoefficients, ColorPrimaries, TransferCharacteristic) triple (14 x 13 x 18 = 3276) x 12 conversions on a 4x4 image, repeated for 14 shapes: subsampling 4:4:4, 4:2:0, 4:2:2, 4:1:0 (2,2), 4:4:0 x limited/full x image content {colourful in-gamut, achromatic (grey pixels / neutral chroma), out-of-gamut floats / extreme codes} (YUV<->RGB in u8 and u16 storage, gamma<->linear, YUV<->linear, YUV<->XYB, RGB<->XYB). Oracle: no panic; the 7 x 11 x 14 supported triples succeed everywhere; an error is an Unsupported* variant naming a field the conversion uses and that is responsible (counterfactual: replacing only that field by BT.709/BT.1886 removes that error); forward Ok iff reverse Ok; YUV<->RGB and gamma<->linear pairs fail with the same error; with a standard matrix YUV<->RGB output is bit-identical for all transfer/primaries values. The triples of each shape are visited in one of four orders (transfer, primaries or matrix varying fastest, shuffled). In addition: all 33,124 ordered pairs of (matrix, primaries) configurations as two-step histories (the second conversion right after the first vs in isolation on a fresh thread), the gamma<->linear / RGB<->XYB contract on real-size images (up to 2049x2049; thorough 3841x2161), and the YUV<->RGB outcome of every (matrix, primaries) pair on real-size frames (256x256 and 1024x72 unpadded, 321x207 padded; thorough also 1920x1080 and 3840x2160; u8 and u16 storage) compared with its outcome on a 4x4 frame. A case = one (triple, shape) (all 12 conversions and their counterfactuals); non-trivial = triple outside the all-supported set; distinct by construction";
